@@ -417,3 +417,36 @@ impl Drop for ReaderRig {
     let _ = &self.participant_status_receiver;
   }
 }
+
+// ---- additions of the link check (C02 / C05, round 4) ------------------------------------------
+impl ReaderRig {
+  /// What the Reader of a slot put into its TopicCache for one writer: (sequence number, kind,
+  /// serialized bytes including the 4-byte encapsulation header).  kind: "data", "key" (dispose /
+  /// unregister by serialized key), "keyhash" (bytes = the 16-byte hash, no header).
+  pub fn cache_entries(&self, slot: usize, writer: [u8; 16]) -> Vec<(i64, String, Vec<u8>)> {
+    use crate::{dds::ddsdata::DDSData, structure::time::Timestamp};
+    let g = guid_from_bytes(writer);
+    let tc = self.slots[slot].topic_cache.lock().unwrap();
+    let ser = |p: &crate::messages::submessages::elements::serialized_payload::SerializedPayload| {
+      let mut v = Vec::with_capacity(4 + p.value.len());
+      v.extend_from_slice(&p.representation_identifier.bytes);
+      v.extend_from_slice(&p.representation_options);
+      v.extend_from_slice(&p.value);
+      v
+    };
+    let mut out: Vec<(i64, String, Vec<u8>)> = tc
+      .get_changes_in_range_best_effort(Timestamp::ZERO, Timestamp::INFINITE)
+      .filter(|(_, cc)| cc.writer_guid == g)
+      .map(|(_, cc)| {
+        let (k, b) = match &cc.data_value {
+          DDSData::Data { serialized_payload } => ("data", ser(serialized_payload)),
+          DDSData::DisposeByKey { key, .. } => ("key", ser(key)),
+          DDSData::DisposeByKeyHash { key_hash, .. } => ("keyhash", key_hash.to_vec()),
+        };
+        (i64::from(cc.sequence_number), k.to_string(), b)
+      })
+      .collect();
+    out.sort();
+    out
+  }
+}
